@@ -296,6 +296,12 @@ type desc struct {
 	ABI   [][2][]pj `json:"abi,omitempty"`
 	Impl  string    `json:"impl"`
 	Key   string    `json:"key,omitempty"`
+	// edit sessions (edits.go): the steps that led to the objects which gave this answer, and which
+	// top-level parameter of the session the case is about
+	Session *sessJ `json:"session,omitempty"`
+	// list-level cases (CSig / CList): entry name and inputs
+	Name   *string `json:"entry_name,omitempty"`
+	Inputs []pj    `json:"inputs,omitempty"`
 }
 
 type gen struct {
@@ -460,9 +466,71 @@ func (g *gen) add(kind string, p *param) {
 	if len(g.st.Samples) < 40 && g.w.Count()%97 == 0 {
 		g.st.Samples = append(g.st.Samples, map[string]interface{}{"kind": kind, "param": p.json(), "impl": implDesc})
 	}
+	g.emit(kind, p, r, tree, reparse, implDesc, nil)
+}
+
+// emit writes one CParam case: the parameter object with what the implementation answered for it (for an
+// edit session: what the EDITED objects answered; sess then records how they got there, for the replay)
+func (g *gen) emit(kind string, p *param, r result, tree string, reparse bool, implDesc string, sess *sessJ) {
 	j := p.json()
 	g.w.Add(fmt.Sprintf("CParam %s %d %s %s %v", p.coq(), r.cls, tree, cv.CoqBytes([]byte(r.sig)), reparse),
-		desc{Kind: kind, Param: &j, Impl: implDesc})
+		desc{Kind: kind, Param: &j, Impl: implDesc, Session: sess})
+}
+
+var entryNames = []string{"f", "transfer", "", "a b", "tuple", "f(", "x"}
+
+func coqList(ps []*param) string {
+	parts := make([]string, len(ps))
+	for i, p := range ps {
+		parts[i] = p.coq()
+	}
+	return "[" + strings.Join(parts, "; ") + "]"
+}
+
+// emitList writes the list-level observations as cases: Entry.Signature() (CSig) and
+// ParameterArray.TypeComponentTree() (CList) of the given objects, which stand for the definitions ps.
+func (g *gen) emitList(kind string, ps []*param, name string, en *abi.Entry, pa abi.ParameterArray, sess *sessJ) {
+	ins := make([]pj, len(ps))
+	for i, p := range ps {
+		ins[i] = p.json()
+	}
+	// Entry.Signature
+	cls, sig := 0, ""
+	func() {
+		defer func() {
+			if x := recover(); x != nil {
+				cls = 2
+			}
+		}()
+		s, err := en.Signature()
+		if err != nil {
+			cls = 1
+			return
+		}
+		sig = s
+	}()
+	g.st.Hit(fmt.Sprintf("list:signature:class=%d", cls))
+	g.w.Add(fmt.Sprintf("CSig %s %s %d %s", cv.CoqBytes([]byte(name)), coqList(ps), cls, cv.CoqBytes([]byte(sig))),
+		desc{Kind: kind + ":signature", Name: &name, Inputs: ins, Impl: fmt.Sprintf("class=%d sig=%q", cls, sig), Session: sess})
+	// ParameterArray.TypeComponentTree
+	var r result
+	func() {
+		defer func() {
+			if x := recover(); x != nil {
+				r = result{cls: 2, err: fmt.Sprint(x)}
+			}
+		}()
+		tc, err := pa.TypeComponentTree()
+		if err != nil {
+			r = result{cls: 1, err: err.Error()}
+			return
+		}
+		r = result{cls: 0, tree: observe(tc), sig: tc.String(), tc: tc}
+	}()
+	implDesc, tree := describeResult(r)
+	g.st.Hit(fmt.Sprintf("list:tree:class=%d", r.cls))
+	g.w.Add(fmt.Sprintf("CList %s %d %s %s", coqList(ps), r.cls, tree, cv.CoqBytes([]byte(r.sig))),
+		desc{Kind: kind + ":list-tree", Name: &name, Inputs: ins, Impl: implDesc, Session: sess})
 }
 
 func lenBucket(n int) string {
@@ -579,6 +647,17 @@ func (g *gen) entryOracles(entries [][2][]*param, dj [][2][]pj) {
 			}
 		}()
 		g.st.Hit("entry-oracle:" + string(en.Type))
+		{
+			// the same list on fresh objects as model-checked cases (entry names vary: they are not validated)
+			name := entryNames[(ei+len(e[0])+len(e[1]))%len(entryNames)]
+			fe := &abi.Entry{Type: en.Type, Name: name}
+			pa := abi.ParameterArray{}
+			for _, p := range e[0] {
+				fe.Inputs = append(fe.Inputs, p.abi())
+				pa = append(pa, p.abi())
+			}
+			g.emitList("entry", e[0], name, fe, pa, nil)
+		}
 		if problem != "" {
 			g.st.ImplFailures = append(g.st.ImplFailures, map[string]interface{}{
 				"what": "entry-level view disagrees with the parameters validated one by one: " + problem, "entry": dj[ei]})
@@ -985,7 +1064,9 @@ func main() {
 		}
 		json.Unmarshal(raw, &rp)
 		g.w = cv.NewWriter(*out, "C13", header, "case", "mismatches", 1)
-		if rp.Case.Param != nil {
+		if rp.Case.Session != nil {
+			g.replaySession(rp.Case.Session)
+		} else if rp.Case.Param != nil {
 			p := fromJSON(*rp.Case.Param)
 			g.add("replay", p)
 			r := run(p)
@@ -993,6 +1074,19 @@ func main() {
 			if r.tree != nil {
 				fmt.Println("implementation tree:", r.tree.describe())
 			}
+		} else if rp.Case.Name != nil {
+			var ps []*param
+			fe := &abi.Entry{Type: abi.Function, Name: *rp.Case.Name}
+			pa := abi.ParameterArray{}
+			for _, j := range rp.Case.Inputs {
+				p := fromJSON(j)
+				ps = append(ps, p)
+				fe.Inputs = append(fe.Inputs, p.abi())
+				pa = append(pa, p.abi())
+			}
+			g.emitList("replay", ps, *rp.Case.Name, fe, pa, nil)
+			sig, err := fe.Signature()
+			fmt.Printf("implementation: Entry.Signature = %q, %v\n", sig, err)
 		} else if rp.Case.ABI != nil {
 			var es [][2][]*param
 			for _, e := range rp.Case.ABI {
@@ -1097,6 +1191,13 @@ func main() {
 		}
 		g.addABI("abi", es)
 	}
+
+	// parameter objects that are edited between uses (edits.go)
+	nSess := 160
+	if thorough {
+		nSess = 4000
+	}
+	g.editSessions(nSess)
 
 	for _, rt := range g.retained {
 		g.recheck(rt)
